@@ -7,6 +7,7 @@ package main
 import (
 	"errors"
 	"fmt"
+	"io"
 	"net/http"
 	"net/http/httptest"
 	"net/url"
@@ -66,6 +67,7 @@ var writes = []writeKind{
 	{"silent", 0, false, 0}, {"header-200", 200, false, 0}, {"header-204", 204, false, 0}, {"header-301", 301, false, 0}, {"header-404", 404, false, 0},
 	{"header-500", 500, false, 0}, {"header-599", 599, false, 0}, {"body-only", 0, true, 0}, {"header-200+body", 200, true, 0}, {"header-404+body", 404, true, 0}, {"header-500+body", 500, true, 0},
 	{"flush-only", 0, false, 1}, {"flusherror-only", 0, false, 2}, {"header-404+flush", 404, false, 1},
+	{"body-streamed-with-io.Copy", 0, true, 3}, // through io.ReaderFrom, should the writer have one
 }
 
 type nilErr struct{ x int }
@@ -106,6 +108,10 @@ var panics = []panicKind{
 	{"typed-nil-error", func() any { return (*nilErr)(nil) }, "nil-receiver-error", `"nil-receiver-error"`, false, false},
 	{"nil", func() any { return nil }, "", "", true, false},
 	{"typed-nil-error-with-value-receiver", func() any { return (*valErr)(nil) }, "", "", false, true},
+	{"slice (not hashable, not comparable)", func() any { return []string{"a", "b"} }, "", "", false, true},
+	{"map", func() any { return map[string]int{"a": 1} }, "", "", false, true},
+	{"struct holding a slice", func() any { return struct{ P []byte }{[]byte("x")} }, "", "", false, true},
+	{"func", func() any { return func() {} }, "", "", false, true},
 }
 
 const (
@@ -140,7 +146,9 @@ func (b behaviour) run(s *httpd.Store, yield bool) {
 	if yield {
 		vsched.Yield("in-handler")
 	}
-	if b.w.body {
+	if b.w.body && b.w.flush == 3 {
+		io.Copy(s.W, io.LimitReader(strings.NewReader("hello"), 5)) // a source without WriteTo
+	} else if b.w.body {
 		s.W.Write([]byte("hello"))
 	}
 	switch b.w.flush {
